@@ -7,8 +7,8 @@ object map is abstracted (`impl/world.py`) to the model's `Store`; `repo.step` o
 object map, error kind and uploaded chunk set, and the observed backend mutation trace must be accepted by `trace.accepts`
 (a linearisation of `planOf`).  Theorems: Properties/C02.lean (`consistent_step`, `consistent_reachable`,
 `restore_listed_exact`, `remaining_snapshot_unchanged`, `snapshot_survives_history`, `no_overwrite`, `consistent_prefix` (all commands),
-`consistent_interleaved`, `consistent_concurrent`, `concurrent_equals_sequential`, `restore_unaffected_by_concurrent_snapshots`,
-`restore_spanning_concurrent_snapshots`).
+`consistent_interleaved`, `consistent_concurrent`, `concurrent_equals_sequential`, `sequential_is_concurrent`,
+`restore_unaffected_by_concurrent_snapshots`, `restore_spanning_concurrent_snapshots`).
 
 Direct oracles (the property's statement on the real code, after EVERY command):
   * every snapshot that is still listed is restored with its owner's key by a regex on its own name and must yield exactly the
@@ -23,7 +23,8 @@ list-snapshots / list-files / restore commands at random points.  The observed p
 concurrent model (`repo.conc`, ReplicatModel/RepoConc.lean), which must ACCEPT it, end in the implementation's object map, answer
 every read as the implementation did, and whose sequential runs of the same commands (three orders) must end in that same map —
 the situation of `consistent_concurrent`, `concurrent_equals_sequential`, `restore_unaffected_by_concurrent_snapshots`,
-`restore_spanning_concurrent_snapshots`.  Direct oracle there: every snapshot listed at any point (or stored before) is restored
+`restore_spanning_concurrent_snapshots`; the model must also accept the sequential schedule of the same commands and end it in the
+store of the sequential model (`sequential_is_concurrent`).  Direct oracle there: every snapshot listed at any point (or stored before) is restored
 exactly by its owner at every later point of the execution (`conc:listed-snapshot-not-restored-exactly`); a snapshot object is
 never stored before one of its chunks (`conc:referenced-chunk-missing`); no overlapping command fails.
 """
